@@ -156,8 +156,8 @@ impl Trace {
     }
     /// An idle position q <= end such that every (location, timestamp) read is the latest message of
     /// its location as of q ("no update in flight while the call executes").
-    pub fn idle_point_explaining(&self, reads: &[(u8, u32)], end: u32) -> Option<u32> {
-        'q: for q in 0..=end {
+    pub fn idle_point_explaining(&self, reads: &[(u8, u32)], from: u32, end: u32) -> Option<u32> {
+        'q: for q in from..=end {
             if !self.idle_at(q) {
                 continue;
             }
@@ -231,6 +231,9 @@ pub struct CallStats {
     pub sc_p_first: u32,
     pub sc_p_last: u32,
     pub forced_spins: u64,
+    /// SC mode: writer position at which the call was entered (calls are ordered in real time with the
+    /// publications that completed before they began, whether or not they load anything)
+    pub entry_pos: u32,
     /// (location, timestamp) of the first loads of the call (for the idle-freshness oracle)
     pub reads: Vec<(u8, u32)>,
     pub reads_overflow: bool,
@@ -744,6 +747,29 @@ impl Engine {
             }
             Role::Off => {}
         }
+    }
+
+    /// SC mode, at the entry of a snapshot() call: the writer may have completed any number of publications since
+    /// the previous call returned (choice 0: none). Only idle positions are offered: an advance into the middle of
+    /// an update is what the choices at the call's loads are for.
+    fn enter_call(&mut self) {
+        if self.mode != Mode::Sc {
+            return;
+        }
+        let mut cands: Vec<u32> = vec![self.sc_p];
+        if self.devs < self.dev_bound {
+            for p in self.sc_p + 1..=self.end {
+                if self.trace.idle_at(p) && self.trace.events.get(p as usize - 1).map(|e| matches!(e.kind, EvKind::Store { loc: LOC_GEN, .. })).unwrap_or(false) {
+                    cands.push(p);
+                }
+            }
+        }
+        let c = if cands.len() == 1 { 0 } else { self.choose(cands.len() as u32) };
+        if c > 0 {
+            self.devs += 1;
+        }
+        self.sc_p = cands[c as usize];
+        self.call.entry_pos = self.sc_p;
     }
 
     fn begin_call(&mut self, prefix: Vec<u32>) {
@@ -1264,6 +1290,8 @@ impl ExploreStats {
 
 #[derive(Clone, Debug)]
 pub struct ExploreCfg {
+    /// reading of the client's monotonic clocks while the reader runs (None: the real clock)
+    pub client_mono_ns: Option<i128>,
     pub mode: Mode,
     pub dev_bound: u32,
     /// cut a call after this many consecutive forced identical loads (u64::MAX: never)
@@ -1294,6 +1322,10 @@ fn file_id(p: &Path) -> Option<(u64, u64)> {
 }
 
 fn reset_reader(trace: &Trace, cfg: &ExploreCfg, attach: u32) {
+    match cfg.client_mono_ns {
+        Some(m) => crate::common::vclock::arm(crate::common::vclock::VClock { real_ns: 1_700_000_000_000_000_000, mono_ns: m, auto_advance_ns: 0, fail_errno: 0, fail_clock: -1 }),
+        None => crate::common::vclock::disarm(),
+    }
     with(|e| {
         e.role = Role::Reader;
         e.mode = cfg.mode;
@@ -1345,7 +1377,10 @@ fn replay_call(run: &mut ReaderRun, c: &[u32], normal_cut_after: u64) {
 
 /// One snapshot() call with the given choice prefix. Returns (result, returned record, choices taken).
 fn one_call(run: &mut ReaderRun, prefix: Vec<u32>) -> (CallResult, Option<Rec>, Vec<(u32, u32)>, CallStats) {
-    with(|e| e.begin_call(prefix));
+    with(|e| {
+        e.begin_call(prefix);
+        e.enter_call();
+    });
     let reader = &mut run.reader;
     let r = std::panic::catch_unwind(std::panic::AssertUnwindSafe(|| reader.snapshot().map(Rec::from_ceb).map_err(|e| shm_err_name(&e))));
     let (taken, stats) = with(|e| (e.taken.clone(), e.call.clone()));
@@ -1533,6 +1568,7 @@ pub fn explore_reader(
         stats.attach_refused += 1;
     }
     with(|e| e.role = Role::Off);
+    crate::common::vclock::disarm();
     Ok(())
 }
 
@@ -1561,6 +1597,7 @@ pub fn replay_path(trace: &Trace, cfg: &ExploreCfg, attach: u32, path: &[Vec<u32
         out.push((r, rec, st));
     }
     drop(run);
+    crate::common::vclock::disarm();
     let f = with(|e| {
         e.role = Role::Off;
         e.failure.take()
